@@ -105,10 +105,10 @@ fn c31_map64_index_any_layout() {
     let lse = l.log_space_extent;
     let a: usize = kani::any();
     match m64::space_index(addr(a)) {
-        None => assert!(a > l.heap_end.as_usize(), "C31.map64.none_only_above_heap_end"),
+        None => assert!(a > l.heap_end.as_usize() || (a >> lse) >= MAX_SPACES, "C31.map64.none_only_outside_every_space"),
         Some(i) => {
             assert!(a <= l.heap_end.as_usize(), "C31.map64.some_only_up_to_heap_end");
-            assert!(i == a >> lse, "C31.map64.index_is_extent_number");
+            assert!(i == a >> lse && i < MAX_SPACES, "C31.map64.index_is_extent_number_inside_table");
         }
     }
     let expect_start = a & ((1usize << lse) - 1) == 0 && (a >> lse) < MAX_SPACES;
